@@ -1,6 +1,7 @@
 (* C02 - DER and CER round trip; canonical output accepted by every wider decoder.  Statements only. *)
 From PV Require Import Base.Bytes Model.Tag Model.Types Model.TableTypes Model.Enc Model.Dec Gen.Tables
-     Proofs.TableFacts Proofs.TagsetShape Proofs.RoundTrip1.
+     Proofs.TableFacts Proofs.TagsetShape Proofs.RoundTrip1 Proofs.RoundTrip2 Proofs.RoundTrip3b Proofs.RoundTrip3e Proofs.RoundTrip3f
+     Proofs.RoundTripModesC Proofs.RoundTripModes.
 Local Open Scope N_scope.
 
 (* On the regenerated dispatch tables: every DER decoder entry is the CER entry or differs from
@@ -37,3 +38,45 @@ Example C02_der_accepted_stage1_nonvacuous :
   /\ stage1_val DER DER T (VBool true) = true
   /\ encode DER true 0 T (VBool true) = Ok [223; 31; 1; 255].
 Proof. vm_compute. repeat split. Qed.
+
+(* The whole universe, for every input: the DER encoding of any value of any stage-3 type (every type
+   constructor, see Props/C01.v) is accepted by the DER, the CER and the BER decoder alike with the same
+   abstract content; SET OF is compared as a multiset (aval_eqb), since the DER encoder sorts it *)
+Theorem C02_der_accepted_stage3 : forall cd T v b tl,
+  stage3_ty true DER T = true -> stage3_val DER cd T v = true -> agoodb (abs T v) = true ->
+  encode DER true 0 T v = Ok b -> N.of_nat (length b) <= index_max ->
+  exists v', decode cd (Some T) (b ++ tl) = Ok (DV T v', tl) /\ aval_eqb (abs T v) (abs T v') = true.
+Proof. intros cd T v b tl. apply roundtrip_stage3_eqb. right; reflexivity. Qed.
+Print Assumptions C02_der_accepted_stage3.
+
+(* without SET OF the abstract content is equal on the nose *)
+Theorem C02_der_accepted_stage3_eq : forall cd T v b tl,
+  stage3_ty false DER T = true -> stage3_val DER cd T v = true ->
+  encode DER true 0 T v = Ok b -> N.of_nat (length b) <= index_max ->
+  exists v', decode cd (Some T) (b ++ tl) = Ok (DV T v', tl) /\ abs T v' = abs T v.
+Proof. intros cd T v b tl. apply roundtrip_stage3. right; reflexivity. Qed.
+Print Assumptions C02_der_accepted_stage3_eq.
+
+(* The CER encoder (always indefinite, 1000-octet segments, sorted SET OF), whatever options the caller
+   passes, read by the CER and by the BER decoder, for the recursive stage-2 fragment outside F01 *)
+Theorem C02_cer_roundtrip : forall cd d k T v b tl,
+  dec_ok cd -> stage2_ty T = true -> RoundTripModes.no_f01 T = true -> modes_val CER cd T v = true ->
+  encode CER d k T v = Ok b -> N.of_nat (length b) <= index_max ->
+  exists v', decode cd (Some T) (b ++ tl) = Ok (DV T v', tl) /\ aval_eqb (abs T v') (abs T v) = true.
+Proof. exact roundtrip_cer_encoder_setof. Qed.
+Print Assumptions C02_cer_roundtrip.
+
+Theorem C02_cer_roundtrip_eq : forall cd d k T v b tl,
+  dec_ok cd -> stage2_ty T = true -> RoundTripModes.no_f01 T = true -> RoundTripModes.no_setof T = true -> modes_val CER cd T v = true ->
+  encode CER d k T v = Ok b -> N.of_nat (length b) <= index_max ->
+  exists v', decode cd (Some T) (b ++ tl) = Ok (DV T v', tl) /\ abs T v' = abs T v.
+Proof. exact roundtrip_cer_encoder. Qed.
+Print Assumptions C02_cer_roundtrip_eq.
+
+(* F24 seen from the theorem's side: a present, empty OPTIONAL constructed component is dropped by DER *)
+Example C02_refuted_F24 :
+  exists T v b v', encode DER true 0 T v = Ok b /\ decode DER (Some T) b = Ok (DV T v', []) /\ abs T v' <> abs T v.
+Proof.
+  exists (TSeq [(Opt, TSeqOf TInt); (Req, TNull)]), (VRec [Some (VList []); Some VNull]), [48; 2; 5; 0], (VRec [None; Some VNull]).
+  split; [vm_compute; reflexivity|]. split; [vm_compute; reflexivity|]. vm_compute. discriminate.
+Qed.
